@@ -119,11 +119,44 @@ func seqCheck(id string, level string, plan func(quick bool) *SeqPlan, note stri
 	}
 }
 
+// c02SchedSpecs: two requests about the same LockId / key issued concurrently; judged by linearizability against
+// the reference model (every outcome must be the outcome of some sequential order).
+func c02SchedSpecs(quick bool) []*EngSpec {
+	cfg := hapi.Config{FastKeys: 1, Concurrent: 1}
+	cancel := func(req, id byte) Step { return C(hapi.Cmd{Type: 2, Req: req, Key: 1, Id: id, Flag: 0x02}) }
+	specs := []*EngSpec{
+		{Name: "unlock-vs-cancel-wait", Cfg: cfg, Fine: true, Setup: []Step{C(L(9, 1, 1, 0, 10, 0, 0)), C(L(8, 1, 2, 5, 10, 0, 0))},
+			Threads: [][]Step{{C(U(1, 1, 1))}, {cancel(2, 2)}}},
+		{Name: "unlock-vs-relock", Cfg: cfg, Fine: true, Setup: []Step{C(L(9, 1, 1, 0, 10, 0, 2))},
+			Threads: [][]Step{{C(U(1, 1, 1))}, {C(L(2, 1, 1, 0, 10, 0, 2))}}},
+		{Name: "double-unlock", Cfg: cfg, Fine: true, Setup: []Step{C(L(9, 1, 1, 0, 10, 0, 0)), C(L(8, 1, 2, 5, 10, 0, 0))},
+			Threads: [][]Step{{C(U(1, 1, 1))}, {C(U(2, 1, 1))}}},
+		{Name: "unlock-first-vs-unlock", Cfg: cfg, Fine: true, Setup: []Step{C(L(9, 1, 1, 0, 10, 1, 0)), C(L(8, 1, 2, 0, 10, 1, 0))},
+			Threads: [][]Step{{C(hapi.Cmd{Type: 2, Req: 1, Key: 1, Id: 7, Flag: 0x01})}, {C(U(2, 1, 1))}}},
+		{Name: "cancel-vs-cancel", Cfg: cfg, Fine: true, Setup: []Step{C(L(9, 1, 1, 0, 10, 0, 0)), C(L(8, 1, 2, 5, 10, 0, 0))},
+			Threads: [][]Step{{cancel(1, 2)}, {cancel(2, 2)}}},
+	}
+	if !quick {
+		specs = append(specs,
+			&EngSpec{Name: "unlock-cancel-newcomer", Cfg: cfg, Fine: true, Setup: []Step{C(L(9, 1, 1, 0, 10, 0, 0)), C(L(8, 1, 2, 5, 10, 0, 0))},
+				Threads: [][]Step{{C(U(1, 1, 1))}, {cancel(2, 2)}, {C(L(3, 1, 3, 0, 10, 0, 0))}}},
+			&EngSpec{Name: "partial-unlock-vs-unlock-all", Cfg: cfg, Fine: true, Setup: []Step{C(L(9, 1, 1, 0, 10, 0, 2)), C(L(8, 1, 1, 0, 10, 0, 2))},
+				Threads: [][]Step{{C(hapi.Cmd{Type: 2, Req: 1, Key: 1, Id: 1, Rcount: 1})}, {C(U(2, 1, 1))}}})
+	}
+	return specs
+}
+
 func init() {
-	seqCheck("C02", "model_checking", func(q bool) *SeqPlan {
-		return &SeqPlan{Specs: c02Specs(q), Oracles: []SeqOracle{OracleRef(RefOpts{Results: true, State: true, Counts: true, Prefix: "C02"})}}
-	}, "explicit-state breadth-first search over operation histories; every transition is an execution of the real engine (fresh instance, history replayed under the default schedule, virtual time); states are deduplicated by a canonical key of the engine state (holders, waiters, values, re-check counters, wheel placement, relative deadlines; request ids dropped); each step is compared with the RefLockDB reference (result codes, LCount/LRCount, holder depths, queue order)",
-		[]string{"sequential histories only (one request at a time, run to quiescence); concurrent schedules of ownership are covered by the C01/C03 schedule checks",
-			"reference model is timing-agnostic: observed TIMEOUT/EXPRIED events are fed into it (timing is C05/C06)",
-			"alphabet: 2-3 LockIds, Count in {0,1,0xffff}, Rcount in {0,1,2,254,255}, unlock flags first/cancel, priority flag; states merged by canonical key"})
+	comboCheck(comboDef{id: "C02", level: "model_checking",
+		sched: func(q bool) *SchedPlan {
+			return &SchedPlan{Specs: c02SchedSpecs(q), Oracles: []Oracle{OracleLinearizable("C02")}, Bound: schedBound, MaxExec: schedCap(4000)}
+		},
+		seq: func(q bool) *SeqPlan {
+			return &SeqPlan{Specs: c02Specs(q), Oracles: []SeqOracle{OracleRef(RefOpts{Results: true, State: true, Counts: true, Prefix: "C02"})}}
+		},
+		rule: "schedule DFS (<=2/3 deviations) of two or three concurrent requests about one LockId (unlock vs cancel-wait, unlock vs re-lock, double unlock, unlock-first vs unlock, two cancels): replies and the holders / queue at quiescence must equal the outcome of SOME sequential order of the requests on the reference model (all orders enumerated); non-trivial = at least two client threads answered",
+		note: "histories: explicit-state breadth-first search over operation histories; every transition is an execution of the real engine (fresh instance, history replayed under the default schedule, virtual time); states are deduplicated by a canonical key of the engine state (holders with their owning connection, waiters, values, re-check counters, wheel placement, relative deadlines; request ids dropped); each step is compared with the RefLockDB reference (result codes, LCount/LRCount, holder depths, queue order)",
+		assumptions: []string{"reference model is timing-agnostic: observed TIMEOUT/EXPRIED events are fed into it (timing is C05/C06)",
+			"alphabet: 2-3 LockIds, Count in {0,1,0xffff}, Rcount in {0,1,2,254,255}, unlock flags first/cancel, priority flag; states merged by canonical key",
+			"runtime is sequentially consistent; data races are outside this check"}})
 }
